@@ -40,3 +40,16 @@ Check C15_list : forall u sec key, lookup_all_values u sec key = effective (valu
 Theorem C15_merged_history : forall ds u sec key, Forall (fun d => parse_unit d <> None) ds ->
   values_raw (fst (merge_dropins u ds)) sec key = values_raw u sec key ++ dropin_values ds sec key.
 Proof. exact merged_history. Qed.
+
+(* ---- the three reading rules on the unit the run converts (main file merged with its drop-ins, Model/ProcessD.v): each rule is
+   applied to the key's history over the main file followed by the drop-ins in merge order ---- *)
+Theorem C15_rules_with_dropins : forall ds u sec key, Forall (fun d => parse_unit d <> None) ds ->
+  let m := fst (merge_dropins u ds) in
+  let hist := values_raw u sec key ++ dropin_values ds sec key in
+  lookup_all_values m sec key = effective hist /\
+  lookup_last_value m sec key = last_assignment hist /\
+  forall n, assoc_str n (lookup_all_key_val m sec key) = last_value_for n (flat_map split_word_all (effective hist)).
+Proof.
+  intros ds u sec key H. cbv zeta. rewrite <- (merged_history ds u sec key H).
+  split; [apply list_rule|]. split; [apply last_rule|]. intros n. apply kv_rule.
+Qed.
